@@ -102,15 +102,17 @@ class Result(object):
 # --------------------------------------------------------------------------- pool
 
 
-def pool_map(func, items, nproc=None, chunksize=1):
+def pool_map(func, items, nproc=None, chunksize=1, fresh=False):
     """Ordered map over a fork pool. `func` must be a module-level function. The tree must have
-    been imported in the parent already (children inherit it)."""
+    been imported in the parent already (children inherit it). fresh=True: every item runs in a
+    fresh fork of the parent (so what an item observes is a function of the item alone, provided
+    the parent never executed library code) - the basis of task-level replay."""
     items = list(items)
     nproc = min(nproc or NPROC, max(1, len(items)))
-    if nproc == 1:
+    if nproc == 1 and not fresh:
         return [func(i) for i in items]
     ctx = multiprocessing.get_context("fork")
-    pool = ctx.Pool(nproc)
+    pool = ctx.Pool(nproc, maxtasksperchild=1) if fresh else ctx.Pool(nproc)
     try:
         out = pool.map(func, items, chunksize)
     finally:
@@ -203,15 +205,16 @@ def write_replay(prop, case, idx):
     return path
 
 
-def confirm_in_fresh_process(prop, path):
-    """Re-run one case twice in a fresh interpreter. Returns True when it violates both times."""
+def confirm_in_fresh_process(prop, path, task=False):
+    """Re-run one case twice in a fresh interpreter. Returns the two exit codes (1 = violates).
+    task=True replays the whole task prefix that led to the case (history-dependent defects)."""
     outcomes = []
     for _ in range(2):
         env = dict(os.environ)
         env["VERIF_REPO"] = REPO
         env["PYTHONDONTWRITEBYTECODE"] = "1"
         p = subprocess.Popen(
-            [PY, "-m", "vf.main", prop, "--replay", path, "--quiet"],
+            [PY, "-m", "vf.main", prop, "--replay", path, "--quiet"] + (["--task"] if task else []),
             cwd=VERIF, env=env, stdout=subprocess.PIPE, stderr=subprocess.PIPE,
         )
         out, err = p.communicate()
@@ -275,6 +278,13 @@ def run_check(prop, tier, seed, module):
             outcomes = [1, 1]
         else:
             outcomes = confirm_in_fresh_process(prop, path)
+            if outcomes == [0, 0] and case.get("task") and hasattr(module, "replay_task"):
+                # not reproducible from the input alone: replay the task prefix that led to it
+                outcomes = confirm_in_fresh_process(prop, path, task=True)
+                if outcomes == [1, 1]:
+                    case["what"] = "%s  [only after the inputs that precede it in task %s: history-dependent]" % (
+                        case.get("what"), case["task"])
+                    path = write_replay(prop, dict(case, needs_task_replay=True), idx)
         if outcomes == [1, 1]:
             print("VIOLATION property=%s replay=%s" % (prop, path))
             print("  what: %s" % case.get("what"))
@@ -292,10 +302,11 @@ def run_check(prop, tier, seed, module):
     return 0
 
 
-def run_replay(prop, path, module, quiet=False):
+def run_replay(prop, path, module, quiet=False, task=False):
     with open(path) as f:
         data = json.load(f)
     case = data["case"]
+    task = task or case.get("needs_task_replay")
     if case.get("kind") == "import":
         try:
             load_tree()
@@ -307,7 +318,10 @@ def run_replay(prop, path, module, quiet=False):
             return 1
         return 0
     load_tree()
-    bad, detail = module.replay(case)
+    if task:
+        bad, detail = module.replay_task(case)
+    else:
+        bad, detail = module.replay(case)
     if not quiet:
         print("replay %s: %s" % ("VIOLATES" if bad else "holds", detail))
     return 1 if bad else 0
